@@ -21,6 +21,7 @@ import (
 	"sort"
 	"strings"
 	"sync"
+	"sync/atomic"
 	"syscall"
 	"time"
 
@@ -46,6 +47,7 @@ type caseSpec struct {
 	Patterns []string       `json:"patterns,omitempty"`
 	RootLink bool           `json:"tree_root_is_link,omitempty"`
 	GCAge    string         `json:"gc_age,omitempty"`
+	FailRemove int          `json:"fail_kth_remove,omitempty"` // >0: the k-th Remove/RemoveAll backend operation fails with EPERM (not executed)
 	Nodes    []treegen.Node `json:"tree"`
 }
 
@@ -148,6 +150,9 @@ func genCase(r *vrun.Run, idx int) caseSpec {
 		c.GCAge = []string{"all", "some", "none"}[rng.IntN(3)]
 	}
 	c.Nodes = nodes
+	if rng.IntN(4) == 0 || (c.EP == "RemoveWithPrivileges" && rng.IntN(2) == 0) {
+		c.FailRemove = 1 + rng.IntN(6)
+	}
 	return c
 }
 
@@ -158,6 +163,14 @@ type opRec struct {
 	Err   string `json:"err,omitempty"`
 	Inside bool  `json:"inside"`
 	Via   string `json:"via_link_class,omitempty"`
+}
+
+// physicalFollow resolves the whole path (operations such as chown, chmod, chtimes and open-for-write follow a final link).
+func physicalFollow(p string) string {
+	if r, err := filepath.EvalSymlinks(p); err == nil {
+		return r
+	}
+	return physical(p)
 }
 
 func physical(p string) string {
@@ -239,11 +252,15 @@ func runCase(r *vrun.Run, c caseSpec, scratch string) {
 			linkAt[filepath.Join(physRoot, filepath.FromSlash(n.Path))] = n.Class
 		}
 	}
+	_ = filepath.Walk(outside, func(p string, _ os.FileInfo, _ error) error { return os.Lchown(p, 4242, 4242) })
+	_ = os.Lchown(filepath.Join(work, "sibling"), 4242, 4242)
+	_ = os.Lchown(filepath.Join(work, "sibling", "s.txt"), 4242, 4242)
 	before, err := snap.TakeOS(sb)
 	must(r, err)
 
 	mon := fsmon.NewMonitor(false)
 	var mu sync.Mutex
+	var removes atomic.Int64
 	var ops []opRec
 	pending := map[int64]*opRec{}
 	mon.Before = func(e *fsmon.Event) {
@@ -251,6 +268,16 @@ func runCase(r *vrun.Run, c caseSpec, scratch string) {
 			return
 		}
 		rec := &opRec{Op: e.Op, Path: e.Path, Phys: physical(e.Path)}
+		switch e.Op {
+		case fsmon.OpChown, fsmon.OpChmod, fsmon.OpChtimes, fsmon.OpOpenFile, fsmon.OpCreate:
+			rec.Phys = physicalFollow(e.Path)
+		}
+		if c.FailRemove > 0 && (e.Op == fsmon.OpRemove || e.Op == fsmon.OpRemoveAll) {
+			if removes.Add(1) == int64(c.FailRemove) {
+				e.Inject = &os.PathError{Op: "remove", Path: e.Path, Err: syscall.EPERM}
+				r.Obs("removal_faults_injected", 1)
+			}
+		}
 		rec.Inside = under(rec.Phys, physRoot) || (c.RootLink && filepath.Clean(e.Path) == treeArg)
 		// which link (if any) does the lexical path traverse?
 		rel, rerr := filepath.Rel(treeArg, filepath.Clean(e.Path))
@@ -316,7 +343,7 @@ func runCase(r *vrun.Run, c caseSpec, scratch string) {
 		}
 	}
 	// O1
-	diff := snap.Diff(before, after, snap.Options{MTime: true}, func(rel string) bool {
+	diff := snap.Diff(before, after, snap.Options{MTime: true, Owner: true}, func(rel string) bool {
 		if snap.Under(rel, relTree) || snap.Under(rel, relReal) {
 			return false
 		}
